@@ -10,6 +10,7 @@ Extraction "indexmodel.ml"
   dim_mult dim_fits dim_addr array_deref mk_arr arr_elems mk_array
   get_slice_range compose_ranges slice_range slice_array slice_slice range_deref slice_deref
   flatten unflatten vec_dims slice_range_vec slice_slice_vec range_deref_vec slice_deref_vec
+  slice_dim_name range_dim_name
   string_deref slice_string
   new_arr can_add can_mult arr_addsub arr_matmul arr_unary dim_copy arr_copy
   exctab_search exctab_of_list exception_tab_search.
